@@ -94,6 +94,11 @@ func (s *Spec) DFA() (*auto.DFA, map[grammar.Terminal][]auto.State, error) {
 		return nil, nil, err
 	}
 
+	// The final states are collected by iterating over a map, so they are sorted to make the result deterministic.
+	for _, states := range termMap {
+		sort.Quick(states, auto.CmpState)
+	}
+
 	return dfa, termMap, nil
 }
 
